@@ -78,14 +78,14 @@ Definition set_value (in_main : bool) (k v : N) : M' unit :=
   if in_main then
     t <- getm ;;
     match hel t !! k with
-    | Some e => setm (HB (hB t) (hgl t) (<[k := Elem k (ekid e) v]> (hel t)))
+    | Some e => setm (hb_upd t k (Elem k (ekid e) v))
     | None => fault_ FVacant
     end
   else
     o <- getlo ;;
     match o with
     | Some o => match lookup_list k (orem o) with
-                | Some e => setlo (Some (Old (oB o) (replace_list (Elem k (ekid e) v) (orem o)) (oit o)))
+                | Some e => setlo (Some (Old (oB o) (replace_list (Elem k (ekid e) v) (orem o)) (oit o) (ocnt o)))
                 | None => fault_ FVacant
                 end
     | None => fault_ FVacant
@@ -94,14 +94,14 @@ Definition set_key (in_main : bool) (k kid : N) : M' unit :=
   if in_main then
     t <- getm ;;
     match hel t !! k with
-    | Some e => setm (HB (hB t) (hgl t) (<[k := Elem k kid (ev e)]> (hel t)))
+    | Some e => setm (hb_upd t k (Elem k kid (ev e)))
     | None => fault_ FVacant
     end
   else
     o <- getlo ;;
     match o with
     | Some o => match lookup_list k (orem o) with
-                | Some e => setlo (Some (Old (oB o) (replace_list (Elem k kid (ev e)) (orem o)) (oit o)))
+                | Some e => setlo (Some (Old (oB o) (replace_list (Elem k kid (ev e)) (orem o)) (oit o) (ocnt o)))
                 | None => fault_ FVacant
                 end
     | None => fault_ FVacant
@@ -244,7 +244,7 @@ Definition map_drain (j : N) (forget : bool) : M' (list (N * N * N)) :=
    else
      drop_elems rest ;;;
      when (is_some_b o) tick_free ;;;
-     setm (HB (hB t) (bcap (hB t)) ∅)) ;;;
+     setm (hb_empty (hB t))) ;;;
   ret (map elem3 yielded).
 
 (* into_iter(): the map is consumed; returns yielded elements *)
